@@ -32,6 +32,9 @@ RULE = (
 ASSUMPTIONS = ["jpg/jpeg are lossy: existence only", "threads (not processes) for concurrent starts in the quick tier; the clock is frozen by the harness, so 'same second' is constructed"]
 SHARDS = {"quick": 8, "thorough": 16}
 BUCKETS = ("photon", "pixel", "signal", "image", "charge")
+from vlib.gen_paramspace import expected_pixel as _expected_pixel, full_state as _full_state  # noqa: E402
+
+PIXEL_BASE = _expected_pixel(_full_state({}))  # the echo pipeline's pixel value for the configured defaults
 
 
 @st.composite
@@ -361,12 +364,69 @@ def body_legacy(case, rec):
                     break
 
 
-PARTS = {"history": body, "processes": body_processes, "legacy_exposure": body_legacy}
+@st.composite
+def legacy_obs_cases(draw):
+    """pyxel.observation_mode (deprecated but public): one numbered file per run; with dask the runs finish in an order set by delays inside a model."""
+    return {"levels": draw(st.lists(st.integers(1, 40), min_size=2, max_size=5, unique=True)), "dask": draw(st.sampled_from([True, True, False])),
+            "workers": draw(st.sampled_from([1, 2, 4])), "fmts": draw(st.lists(st.sampled_from(["npy", "txt", "fits"]), min_size=1, max_size=2, unique=True)),
+            "delay_ms": draw(st.sampled_from([0.0, 20.0, 60.0])), "first_slowest": draw(st.booleans())}
+
+
+def body_legacy_obs(case, rec):
+    import warnings
+
+    import pyxel
+    from vprobes import models as P
+
+    P.reset()
+    levels = list(case["levels"])
+    n = len(levels)
+    rec.cls("legacy_obs:dask" if case["dask"] else "legacy_obs:sequential", f"legacy_obs:runs:{n}", f"legacy_obs:workers:{case['workers']}")
+    rec.nt(case["dask"] and case["workers"] > 1 and case["delay_ms"] > 0)
+    # the delay model sleeps ((|level| * 7919) % 5) * scale: make the FIRST run the slowest when asked for (its files are then written last)
+    slow = [lv for lv in levels if (int(lv) * 7919) % 5 == 4]
+    if case["first_slowest"] and slow:
+        levels.remove(slow[0])
+        levels.insert(0, slow[0])
+    extra = {"photon_collection": [{"name": "slow", "func": "vprobes.models.delay", "enabled": True, "arguments": {"level": 0.0, "scale_ms": case["delay_ms"]}}]}
+    out = rec.tmp / "out"
+    spec = {"detector": simple_spec("CCD", row=2, col=3), "pipeline": echo_pipeline(extra), "readout": {"times": [1.0]},
+            "mode": {"kind": "observation", "mode": "sequential", "with_dask": case["dask"],
+                     "parameters": [{"key": "pipeline.photon_collection.slow.arguments.level", "values": [float(x) for x in levels], "enabled": True}]},
+            "outputs": {"output_folder": str(out), "save_data_to_file": [{"detector.pixel.array": list(case["fmts"])}]}}
+    # the echo probes do not depend on the swept level: a further probe adds 1e5 x level to the pixel bucket so that a file identifies its run
+    spec["pipeline"]["groups"]["charge_collection"].append({"name": "lvl", "func": "vprobes.models.level_from_delay_model", "enabled": True, "arguments": {}})
+    result = None
+    with rec.must_not_raise("valid_outputs_refused"):
+        cfg = pyx.build(spec)
+        with pyx.scheduler("threads" if case["dask"] else "synchronous", case["workers"]), warnings.catch_warnings():
+            warnings.simplefilter("ignore")
+            result = pyxel.observation_mode(observation=cfg.mode, detector=cfg.detector, pipeline=cfg.pipeline)
+    if result is None:
+        return
+    folders = [d for d in out.iterdir() if d.is_dir()]
+    if not rec.check(len(folders) == 1, "output_folder_count", f"{[d.name for d in folders]}"):
+        return
+    for fm in case["fmts"]:
+        want = [f"detector_pixel_array_{i + 1}.{fm}" for i in range(n)]
+        have = sorted(f.name for f in folders[0].iterdir() if f.name.startswith("detector_pixel_array_") and f.suffix == "." + fm)
+        if not rec.check(have == sorted(want), "files_missing_or_surplus", f"{fm}: {n} runs, files {have}"):
+            continue
+        for i in range(n):
+            rec.sub({"file": want[i]}, True)
+            got = np.asarray(_read_any(folders[0] / want[i]), dtype=float)
+            # file <i+1> belongs to run i: its pixel carries that run's level (added by the level probe)
+            rec.check(abs(got.ravel()[0] - (PIXEL_BASE + 1e5 * levels[i])) < 1.0, "file_content_differs_from_bucket",  # (txt keeps 9 digits; runs differ by 1e5)
+                      f"{want[i]} holds {got.ravel()[:2]}, run {i} was made with level {levels[i]} (expected {PIXEL_BASE + 1e5 * levels[i]})")
+
+
+PARTS = {"history": body, "processes": body_processes, "legacy_exposure": body_legacy, "legacy_observation": body_legacy_obs}
 
 
 def plan(tier):
     parts = [Part(name="history", kind="gen", strategy=histories, examples=25 if tier == "quick" else 200),
-             Part(name="legacy_exposure", kind="gen", strategy=legacy_cases, examples=16 if tier == "quick" else 120)]
+             Part(name="legacy_exposure", kind="gen", strategy=legacy_cases, examples=16 if tier == "quick" else 120),
+             Part(name="legacy_observation", kind="gen", strategy=legacy_obs_cases, examples=10 if tier == "quick" else 80)]
     if tier == "thorough":
         parts.append(Part(name="processes", kind="enum", cases=process_cases, shards=3))
     return parts
